@@ -36,7 +36,48 @@ def run(ctx, model_available=True):
             break
     res["evaluations"] += nrace
     res["distribution"]["race_schedules"] = nrace
+    tf, tn = two_gateways()
+    res["failures"].extend(tf)
+    res["evaluations"] += tn
+    res["distribution"]["two_gateway_runs"] = tn
     return res
+
+
+def two_gateways():
+    """Two Gateway objects in one process with the same node ids (two MySensors networks): parking
+    and waking on one of them must not disturb the other's sleep buffer."""
+    from common import Impl
+
+    fs, n = [], 0
+    for v in ("2.0", "2.1", "2.2"):
+        wake = "7;255;3;0;32;500" if v == "2.2" else "7;255;3;0;22;500"
+        for order in (0, 1, 2):
+            n += 1
+            a, b = Impl(), Impl()
+            for g in (a, b):
+                g.recv(f"0;255;3;0;2;{v}")
+                g.put_node(7, 17, v, sleeping=True)
+                g.add_child(7, 1, 3)
+            a.send((7, 1, 1, 0, 2, "for-a"), buffered=True)
+            if order >= 1:
+                b.send((7, 1, 1, 0, 2, "for-b"), buffered=True)
+            rb = b.recv(wake)                 # node 7 of the OTHER network wakes
+            if order == 2:
+                b.recv(wake)
+            ra = a.recv(wake)                 # now node 7 of network a wakes
+            got_a = [w for w, ok in ra["writes"]]
+            got_b = [w for w, ok in rb["writes"]]
+            want_b = ["7;1;1;0;2;for-b\n"] if order >= 1 else []
+            if got_a != ["7;1;1;0;2;for-a\n"] or got_b != want_b:
+                fs.append({"kind": "oracle", "sig": "C07:two-gateways",
+                           "desc": f"protocol {v}: two gateways, node 7 sleeping on both; a command parked on the first{', one on the second' if order else ''}; node 7 of the second wakes (released {got_b}, expected {want_b}), then node 7 of the first wakes: released {got_a}, expected ['7;1;1;0;2;for-a\\n']",
+                           "case": {"version": v, "order": order}})
+            a.close()
+            b.close()
+    seen = {}
+    for f in fs:
+        seen.setdefault(f["sig"], f)
+    return list(seen.values()), n
 
 
 def replay(ctx, rp):
